@@ -10,9 +10,10 @@
                       component (the 4-entry array). What follows depends on entropy-coded data
                       (acTables[Ta], qtables[Tq] are reached only after Huffman decoding) and is not modelled.
      bl_decode      = Decode: marker loop, SOS exit, EOI exit (convertToPixels allocation)
-   g = false: code as it stands. g = true: proposed checks — parseSOF rejects Tq > 3, parseSOS
-   rejects Td > 3 or Ta > 3, decodeScan refuses to run without a frame header, Build validates
-   its table (PrsJpeg.huff_ok). *)
+   The model is the fixed code (9186ffd, findings F42/F43: parseSOF rejects Tq > 3, parseSOS rejects
+   Td > 3 or Ta > 3 and a scan without frame header or with Ns = 0; 16f659a: second SOF0 rejected).
+   Before: SOS with Ns = 0 and no SOF0 -> DivCeil(0,0); Td = 4 -> dcTables[4]. The index and
+   division checks stay explicit in the model; the theorems show they cannot fail. *)
 From V Require Import Common.Base Parsers.PrsOutcome Parsers.PrsJpeg.
 
 Record bcomp := mkBC { bc_id : Z; bc_h : Z; bc_v : Z; bc_tq : Z; bc_td : Z; bc_ta : Z }.
@@ -25,7 +26,7 @@ Definition bst0 : bst := mkB 0 0 [] 0 0 [false; false; false; false] [false; fal
 Definition div_ceil (a b : Z) : M Z := if b =? 0 then pan else ret (Z.quot (a + b - 1) b).
 
 (* component loop of parseSOF *)
-Fixpoint bl_comps (g : bool) (data : list Z) (k : nat) (i : Z) (acc : list bcomp) (maxh maxv : Z) : M (list bcomp * Z * Z) :=
+Fixpoint bl_comps (data : list Z) (k : nat) (i : Z) (acc : list bcomp) (maxh maxv : Z) : M (list bcomp * Z * Z) :=
   match k with
   | O => ret (acc, maxh, maxv)
   | S k' =>
@@ -35,8 +36,8 @@ Fixpoint bl_comps (g : bool) (data : list Z) (k : nat) (i : Z) (acc : list bcomp
     let h := hv / 16 in
     let v := hv mod 16 in
     if (h <=? 0) || (4 <? h) || (v <=? 0) || (4 <? v) then err else
-    if g && (3 <? tq) then err else   (* proposed check *)
-    bl_comps g data k' (i + 1) (acc ++ [mkBC id h v tq 0 0]) (Z.max maxh h) (Z.max maxv v)
+    if 3 <? tq then err else
+    bl_comps data k' (i + 1) (acc ++ [mkBC id h v tq 0 0]) (Z.max maxh h) (Z.max maxv v)
   end.
 
 Fixpoint bl_comp_allocs (cs : list bcomp) (mcucols mcurows : Z) : M unit :=
@@ -45,10 +46,11 @@ Fixpoint bl_comp_allocs (cs : list bcomp) (mcucols mcurows : Z) : M unit :=
   | c :: r => _ <- alloc (mcucols * bc_h c * (mcurows * bc_v c) * 64) 1 ;; bl_comp_allocs r mcucols mcurows
   end.
 
-Definition bl_parse_sof (g : bool) (st : bst) (bs : list Z) : M (bst * list Z) :=
+Definition bl_parse_sof (st : bst) (bs : list Z) : M (bst * list Z) :=
   sr <- read_segment bs ;;
   let '(data, rest) := sr in
   if zlen data <? 6 then err else
+  if negb (b_w st =? 0) || negb (b_h st =? 0) then err else   (* second frame header *)
   if negb (znth data 0 0 =? 8) then err else
   let h := be16j data 1 in
   let w := be16j data 3 in
@@ -57,7 +59,7 @@ Definition bl_parse_sof (g : bool) (st : bst) (bs : list Z) : M (bst * list Z) :
   if negb ((n =? 1) || (n =? 3)) then err else
   if zlen data <? 6 + n * 3 then err else
   _ <- alloc n 8 ;;
-  x <- bl_comps g data (Z.to_nat n) 0 [] 1 1 ;;
+  x <- bl_comps data (Z.to_nat n) 0 [] 1 1 ;;
   let '(cs, maxh, maxv) := x in
   mcucols <- div_ceil w (maxh * 8) ;;
   mcurows <- div_ceil h (maxv * 8) ;;
@@ -97,7 +99,7 @@ Fixpoint set_sel (cs : list bcomp) (id td ta : Z) : option (list bcomp) :=
     else match set_sel r id td ta with Some r' => Some (c :: r') | None => None end
   end.
 
-Fixpoint bl_sos_comps (g : bool) (data : list Z) (k : nat) (i : Z) (cs : list bcomp) : M (list bcomp) :=
+Fixpoint bl_sos_comps (data : list Z) (k : nat) (i : Z) (cs : list bcomp) : M (list bcomp) :=
   match k with
   | O => ret cs
   | S k' =>
@@ -106,25 +108,26 @@ Fixpoint bl_sos_comps (g : bool) (data : list Z) (k : nat) (i : Z) (cs : list bc
     match set_sel cs c (t / 16) (t mod 16) with
     | None => err
     | Some cs' =>
-      if g && ((3 <? t / 16) || (3 <? t mod 16)) then err   (* proposed check *)
-      else bl_sos_comps g data k' (i + 1) cs'
+      if (3 <? t / 16) || (3 <? t mod 16) then err
+      else bl_sos_comps data k' (i + 1) cs'
     end
   end.
 
-Definition bl_parse_sos (g : bool) (st : bst) (bs : list Z) : M (bst * list Z) :=
+Definition bl_parse_sos (st : bst) (bs : list Z) : M (bst * list Z) :=
   sr <- read_segment bs ;;
   let '(data, rest) := sr in
   if zlen data <? 1 then err else
   ns <- idx data 0 ;;
   if zlen data <? 1 + ns * 2 + 3 then err else
-  cs <- bl_sos_comps g data (Z.to_nat ns) 0 (b_comps st) ;;
+  if (zlen (b_comps st) =? 0) || (ns =? 0) then err else
+  cs <- bl_sos_comps data (Z.to_nat ns) 0 (b_comps st) ;;
   ret (mkB (b_w st) (b_h st) cs (b_mcuw st) (b_mcuh st) (b_dc st) (b_ac st) (b_ri st), rest).
 
 (* decodeScan: scan buffer (and its per-interval copies, bounded by the input), the two DivCeil,
    then - if there is at least one MCU and one component - decodeBlock's first statement *)
-Definition bl_scan_start (g : bool) (st : bst) (rest : list Z) : M unit :=
-  _ <- note_alloc (4 * zlen rest + 512) ;;
-  if g && (zlen (b_comps st) =? 0) then err else   (* proposed check: no frame header *)
+Definition bl_scan_start (st : bst) (rest : list Z) : M unit :=
+  _ <- note_alloc (2 * zlen rest + 512) ;;   (* scan buffer (bytes.Buffer growth) *)
+  _ <- note_alloc (zlen rest) ;;             (* copies of the restart intervals: each at most the scan length *)
   mcucols <- div_ceil (b_w st) (b_mcuw st) ;;
   mcurows <- div_ceil (b_h st) (b_mcuh st) ;;
   if (mcucols <=? 0) || (mcurows <=? 0) then ret tt else
@@ -139,34 +142,34 @@ Definition bl_scan_start (g : bool) (st : bst) (rest : list Z) : M unit :=
 (* convertToPixels: make([]byte, width*height*numComponents) *)
 Definition bl_out_alloc (st : bst) : M unit := alloc (b_w st * b_h st * zlen (b_comps st)) 1.
 
-Fixpoint bl_loop (g : bool) (fuel : nat) (st : bst) (bs : list Z) : M jhdr :=
+Fixpoint bl_loop (fuel : nat) (st : bst) (bs : list Z) : M jhdr :=
   match fuel with
   | O => oof
   | S k =>
     match read_marker bs with
     | Ok (m, r) =>
-      if m =? 192 then x <- bl_parse_sof g st r ;; bl_loop g k (fst x) (snd x)
-      else if m =? 219 then r2 <- bl_parse_dqt r ;; bl_loop g k st r2
+      if m =? 192 then x <- bl_parse_sof st r ;; bl_loop k (fst x) (snd x)
+      else if m =? 219 then r2 <- bl_parse_dqt r ;; bl_loop k st r2
       else if m =? 196 then
-        x <- parse_dht g r (b_dc st) (b_ac st) ;;
-        bl_loop g k (mkB (b_w st) (b_h st) (b_comps st) (b_mcuw st) (b_mcuh st) (fst (fst x)) (snd (fst x)) (b_ri st)) (snd x)
-      else if m =? 221 then x <- bl_parse_dri st r ;; bl_loop g k (fst x) (snd x)
+        x <- parse_dht r (b_dc st) (b_ac st) ;;
+        bl_loop k (mkB (b_w st) (b_h st) (b_comps st) (b_mcuw st) (b_mcuh st) (fst (fst x)) (snd (fst x)) (b_ri st)) (snd x)
+      else if m =? 221 then x <- bl_parse_dri st r ;; bl_loop k (fst x) (snd x)
       else if m =? 218 then
-        x <- bl_parse_sos g st r ;;
-        _ <- bl_scan_start g (fst x) (snd x) ;;
+        x <- bl_parse_sos st r ;;
+        _ <- bl_scan_start (fst x) (snd x) ;;
         _ <- bl_out_alloc (fst x) ;;
         ret (b_w st, b_h st, zlen (b_comps st), 8)
       else if m =? 217 then
         _ <- bl_out_alloc st ;;
         ret (b_w st, b_h st, zlen (b_comps st), 8)
-      else if has_length m then x <- read_segment r ;; bl_loop g k st (snd x)
-      else bl_loop g k st r
+      else if has_length m then x <- read_segment r ;; bl_loop k st (snd x)
+      else bl_loop k st r
     | _ => err
     end
   end.
 
-Definition bl_decode (g : bool) (fuel : nat) (bs : list Z) : M jhdr :=
+Definition bl_decode (fuel : nat) (bs : list Z) : M jhdr :=
   match read_marker bs with
-  | Ok (m, r) => if m =? 216 then bl_loop g fuel bst0 r else err
+  | Ok (m, r) => if m =? 216 then bl_loop fuel bst0 r else err
   | _ => err
   end.
